@@ -197,6 +197,57 @@ type SAB struct {
 	B *PHold
 }
 
+// ArrMPtr / ArrTwice: a named array type (arrays inherit the addressability of the value that holds
+// them) whose elements have pointer-receiver methods, met in addressable positions (field of a struct
+// reached through a pointer, slice element, pointee) and in non-addressable ones (map value).
+type ArrMPtr [1]MPtr
+type ArrTPtr [2]TPtr
+type ArrTwice struct {
+	A ArrMPtr
+	M map[string]ArrMPtr
+	S []ArrMPtr
+	P *ArrMPtr
+	T ArrTPtr
+	N map[string]ArrTPtr
+}
+
+// MArrFirst: the non-addressable occurrence comes first.
+type MArrFirst struct {
+	M map[string]ArrMPtr
+	P *ArrMPtr
+	A ArrMPtr
+}
+
+// InnerMP / SE10 / SE11: fields with pointer-receiver methods promoted through an embedded pointer
+// (addressable whatever the outer value is) and through an embedded value (as addressable as the outer).
+type InnerMP struct {
+	X MPtr
+	T TPtr `json:"t"`
+}
+type SE10 struct {
+	*InnerMP
+	Y int
+}
+type SE11 struct {
+	InnerMP
+	Y int
+}
+
+// SOpt: the ",string" option on every kind it applies to (and on pointers to them).
+type SOpt struct {
+	S  string   `json:"s,string"`
+	PS *string  `json:"ps,string"`
+	I  int      `json:"i,string"`
+	U  uint8    `json:"u,string,omitempty"`
+	F  float64  `json:",string"`
+	F3 float32  `json:"f3,string"`
+	B  bool     `json:"b,string"`
+	PI *int64   `json:"pi,string"`
+	PB *bool    `json:"pb,string,omitempty"`
+	NS NamedStr `json:"ns,string"`
+	L  []int    `json:"l,string"`
+}
+
 // ---- embedding
 
 type EmbA struct {
@@ -287,7 +338,8 @@ func reg(v any) {
 }
 
 // EncodeOnly: corpus types without a faithful decoder (marshal-side tests only).
-var EncodeOnly = map[string]bool{"MVal": true, "MPtr": true, "TVal": true, "TPtr": true, "MBoth": true, "MRaw": true, "NamedStrT": true, "ByteM": true, "ByteT": true, "SE5": true, "SE6": true, "PHold": true, "SAB": true}
+var EncodeOnly = map[string]bool{"MVal": true, "MPtr": true, "TVal": true, "TPtr": true, "MBoth": true, "MRaw": true, "NamedStrT": true, "ByteM": true, "ByteT": true, "SE5": true, "SE6": true, "PHold": true, "SAB": true,
+	"ArrMPtr": true, "ArrTwice": true, "MArrFirst": true, "SE10": true, "SE11": true}
 
 // InterfaceTypes: corpus entries that are non-empty interface types.
 var shapeType = reflect.TypeOf((*Shape)(nil)).Elem()
@@ -336,6 +388,12 @@ func init() {
 	reg(Wide{})
 	reg(PHold{})
 	reg(SAB{})
+	reg(ArrMPtr{})
+	reg(ArrTwice{})
+	reg(MArrFirst{})
+	reg(SE10{})
+	reg(SE11{})
+	reg(SOpt{})
 	Corpus["Shape"] = shapeType
 	CorpusNames = append(CorpusNames, "Shape")
 }
